@@ -48,7 +48,8 @@ EmptyHist(r) ==
    ldrLog |-> [t \in {} |-> <<>>], appliedCmd |-> [i \in {} |-> [op |-> "noop"]],
    lastApplied |-> [n \in NodeIds(r) |-> 0], inc |-> [n \in NodeIds(r) |-> 1],
    rresp |-> [n \in NodeIds(r) |-> {}], acked |-> {}, rejected |-> {}, responded |-> {},
-   notifTerm |-> [n \in NodeIds(r) |-> 0], notif |-> {}, lostByReset |-> {}, hsLoss |-> FALSE, gapSeen |-> FALSE]
+   notifTerm |-> [n \in NodeIds(r) |-> 0], notif |-> {}, lostByReset |-> {}, hsLoss |-> FALSE, gapSeen |-> FALSE,
+   downView |-> [n \in NodeIds(r) |-> ND(r, n).view], initView |-> [n \in NodeIds(r) |-> ND(r, n).view]]
 
 (***************************************************************************)
 (* History update from one record                                           *)
@@ -88,6 +89,7 @@ NewHist(hp, r) ==
         !.maxTerm = [n \in NodeIds(r) |-> IF ND(r, n).up THEN Max(@[n], ND(r, n).term) ELSE @[n]],
         !.ldrLog = FoldLdr(@, r, Leaders(r)),
         !.inc = [n \in NodeIds(r) |-> ND(r, n).inc],
+        !.downView = [n \in NodeIds(r) |-> IF ND(r, n).up THEN ND(r, n).view ELSE @[n]],
         !.acked = @ \cup {cr[j].id : j \in {x \in 1..Len(cr) : cr[x].ok}},
         !.responded = @ \cup {cr[j].id : j \in 1..Len(cr)}]
   IN FoldApplied(h1, Evs(r, "Applied"), 1)
@@ -305,10 +307,69 @@ Mon_C31(hp, hn, r) ==
      \cup {V("C31", "NotifiedNodeWasLeader", r, "other", ToString(<<ln[j].leader, ln[j].t>>)) :
         j \in {x \in 1..Len(ln) : [n |-> ln[x].leader, t |-> ln[x].t] \notin hn.led}}
 
+
+(***************************************************************************)
+(* Membership: C26 (quorum intersection), C27 (learners), C28 (restart)     *)
+(***************************************************************************)
+InView(r, n, p) == ToString(p) \in DOMAIN ND(r, n).view
+ViewRole(r, n, p) == ND(r, n).view[ToString(p)][1]
+SelfVoter(r, n) == ND(r, n).up /\ InView(r, n, n) /\ ViewRole(r, n, n) # "Ln"
+CommitSet(r, n) == Voters(r, n) \cup {n}          \* quorum base a leader uses to commit
+ElectSet(r, n)  == VotePeers(r, n) \cup {n}       \* quorum base a candidate uses to win
+DisjointMaj(A, B) == \E Qa \in SUBSET A, Qb \in SUBSET B :
+                        IsMajority(Cardinality(Qa), Cardinality(A)) /\ IsMajority(Cardinality(Qb), Cardinality(B))
+                        /\ Qa \cap Qb = {}
+QuorumsIntersect(r) ==
+  \A i, j \in {x \in UpNodes(r) : SelfVoter(r, x)} :
+     \A A \in {CommitSet(r, i), ElectSet(r, i)}, B \in {CommitSet(r, j), ElectSet(r, j)} : ~DisjointMaj(A, B)
+MaxBatchPromote(r) ==
+  LET S == UNION {{Len(ND(r, n).log[j].ids) : j \in {x \in 1..Len(ND(r, n).log) :
+                      ND(r, n).log[x].k = "cfg" /\ ND(r, n).log[x].v = "batchpromote"}} : n \in NodeIds(r)}
+  IN IF S = {} THEN 0 ELSE CHOOSE m \in S : \A o \in S : m >= o
+Mon_C26(hn, rp, r) ==
+  IF QuorumsIntersect(r) \/ ~QuorumsIntersect(rp) THEN {}
+  ELSE {V("C26", "QuorumsIntersect", r,
+          IF \E n \in UpNodes(r) : ~ND(rp, n).up THEN "view-reset-by-restart"
+          ELSE IF MaxBatchPromote(r) >= 2 THEN "multi-node-batch-promotion" ELSE "other",
+          ToString([n \in {x \in UpNodes(r) : SelfVoter(r, x)} |-> CommitSet(r, n)]))}
+
+\* committed promotions a node has applied: ids of batchpromote/promote entries at or below its commit index
+PromotedBy(r, n) == UNION {SeqToSet(ND(r, n).log[j].ids) :
+                             j \in {x \in 1..Len(ND(r, n).log) : ND(r, n).log[x].k = "cfg"
+                                       /\ ND(r, n).log[x].v \in {"batchpromote", "promote"}
+                                       /\ ND(r, n).log[x].i <= ND(r, n).commit}}
+Mon_C27(hp, hn, rp, r) ==
+  LET vr == Evs(r, "VoteResp")
+      vq == Evs(r, "VQSent")
+      jr == Evs(r, "JoinResp")
+      ji == Evs(r, "JoinInvoke")
+  IN {V("C27", "LearnerGrantsVote", r, "other", ToString(vr[j].voter)) :
+        j \in {x \in 1..Len(vr) : vr[x].granted /\ vr[x].voterRole = "Ln"}}
+     \cup {V("C27", "LearnerStartsElection", r, "other", ToString(vq[j].from)) :
+        j \in {x \in 1..Len(vq) : ND(rp, vq[x].from).up /\ ND(rp, vq[x].from).role = "Ln"}}
+     \cup {V("C27", "JoinOkOnlyAfterCommit", r, "other", ToString(jr[j].n)) :
+        j \in {x \in 1..Len(jr) : jr[x].ok /\
+                 ~\E c \in hn.committed : c.e.k = "cfg" /\ c.e.v = "add" /\ c.e.ids = <<jr[x].n>>}}
+     \cup {V("C27", "JoinExistingRejected", r, "other", ToString(ji[j].n)) :
+        j \in {x \in 1..Len(ji) : ji[x].alreadyMember /\
+                 \E y \in 1..Len(jr) : jr[y].id = ji[x].id /\ jr[y].ok}}
+     \cup {V("C27", "PromotionOnlyByCommittedEntry", r, "other", ToString(<<n, p>>)) :
+        <<n, p>> \in {<<x, y>> \in UpNodes(r) \X NodeIds(r) :
+                        ND(rp, x).up /\ ND(rp, x).inc = ND(r, x).inc
+                        /\ InView(rp, x, y) /\ InView(r, x, y)
+                        /\ ViewRole(rp, x, y) = "Ln" /\ ViewRole(r, x, y) # "Ln"
+                        /\ y \notin PromotedBy(r, x)}}
+
+Mon_C28(hp, rp, r) ==
+  {V("C28", "ViewAfterRestart", r,
+     IF ND(r, n).view = hp.initView[n] THEN "view-reset-to-initial-config" ELSE "other", ToString(n)) :
+     n \in {x \in UpNodes(r) : ~ND(rp, x).up /\ ND(r, x).view # hp.downView[x]}}
+
 Monitors(hp, hn, rp, r) ==
   Mon_C01(hp, hn, r) \cup Mon_C02(hp, hn, rp, r) \cup Mon_C03(hn, rp, r) \cup Mon_C04(hn, rp, r)
   \cup Mon_C05(hp, hn, rp, r) \cup Mon_C06(hp, hn, rp, r) \cup Mon_C07(hn, rp, r) \cup Mon_C08(hn, rp, r)
   \cup Mon_C09(hn, rp, r) \cup Mon_Client(hp, hn, r) \cup Mon_C14(hn, r) \cup Mon_C31(hp, hn, r)
+  \cup Mon_C26(hn, rp, r) \cup Mon_C27(hp, hn, rp, r) \cup Mon_C28(hp, rp, r)
 
 (***************************************************************************)
 (* Layer 2: conformance of the observed step with the DECore operators.     *)
